@@ -86,6 +86,22 @@ CLAIMED['C11'] = dict(
     text='Partial by design: (1) both update_checksum functions dispatch every gzip-family wrapper flag to crc32_gzip_refl and every zlib-family flag to isal_adler32_bam1, and nothing else; (2) in isal_inflate_stateless and isal_inflate (completion and ISAL_CHECKSUM_CHECK resume) exactly the verifying crc_flag modes reach check_gzip_checksum / check_zlib_checksum (with finalize_adler32 exactly once) and the comparator result flows to the return value; (3) in each comparator ISAL_DECOMP_OK is reachable only through the equal-edge of a comparison whose operands depend on the trailer bytes, state->crc and (gzip) state->total_out, the other edge returns ISAL_INCORRECT_CHECKSUM, and the trailer is read in the RFC byte order; (4) write_trailer stores CRC32|ISIZE little-endian / Adler-32 big-endian for the matching flags. NOT decided: the checksum values (ranges passed to update_checksum) and detection of every corruption.',
     note='Trusts clang IR + sroa and tools/llir.py. No test of the suite feeds a corrupted stream.')
 
+CLAIMED['C06'] = dict(
+    category='other', design_ref='DESIGN.md section 3, C06',
+    technique='static analysis: interprocedural return-value sets with branch filtering, edge-removal reachability between validation guards and sinks over the LLVM IR, guard/sink reachability and reaching-constant analysis over the assembled decoders, flag liveness',
+    text='Partial by design: (1) isal_inflate, isal_inflate_stateless, isal_inflate_set_dict return only documented status codes, the C and both asm block decoders agree on {OK, END_INPUT, OUT_OVERFLOW, INVALID_SYMBOL, INVALID_LOOKBACK}, internal positive codes do not escape isal_inflate; (2) portable decoder: every look-back copy is reachable only through the passed next_out - dist >= start_out test, the RFC distance table is indexed only after symbol < DIST_LEN, Huffman tables are built only after the HLIT and HDIST range tests, the code-length overrun / end-of-block test and the over-subscription tests passed, a stored block is accepted only after LEN/NLEN agree; header copy helpers report an overflow only when a buffer exists; (3) asm decoders (_01, _04): on every path from a distance-table load to a look-back read lies a branch to the INVALID_LOOKBACK exit, every compare is consumed, no undefined register is read. NOT decided: termination, never-false-success, equality with a reference decoder, numerical correctness of a guard that is present.',
+    note='Trusts clang IR + sroa, tools/llir.py, nasm/objdump decoding, ASMFLOW. One documented over-approximation: the header-overflow codes in isal_inflate_stateless (see evidence notes).')
+CLAIMED['C17'] = dict(
+    category='other', design_ref='DESIGN.md section 3, C17',
+    technique='static analysis: dominance/value-shape analysis over LLVM IR, interval abstract interpretation of set_dist_mask and _zlib_header_in_buffer, effect analysis of the dictionary entry points, taint dataflow (origin ids, edge-sensitive guarded set) over the asm match finders',
+    text='Partial by design: (1) in all six portable match finders the distance given to get_dist_code / get_dist_icf_code is dominated by dist - 1 < dist_mask or computed as ((x-1) & dist_mask) + 1; (2) interval analysis over every hist_bits value shows that after set_dist_mask hist_bits is in [1,15] and dist_mask <= min(2^15, IGZIP_HIST_SIZE) - 1 in the default, 8 KiB and LONGER_HUFFTABLE builds, and that the zlib CMF byte advertises CINFO + 8 >= hist_bits; (3) dictionary calls in a wrong state return ISAL_INVALID_STATE on paths without any store, and the history copy is dominated by the length clamp; (4) in the eight scalar asm match finders every value derived from a 16-bit hash-table entry is masked with or compared against a value loaded from dist_mask before it is used in an address. NOT decided: distances of emitted streams as run-time values, dictionary round trips, the vectorised gen_icf_map kernels\' masking (lane-wise).',
+    note='Trusts clang IR + sroa, tools/llir.py, tools/intervals.py (sound transfer functions, full range for anything not modelled), the asm taint domain in props/c17_asm.py.')
+CLAIMED['C18'] = dict(
+    category='other', design_ref='DESIGN.md section 3, C18',
+    technique='static analysis: effect and dominance analysis over the LLVM IR of the table install guard and the two builders; compiler-evaluated constant inequalities',
+    text='Partial by design: isal_deflate_set_hufftables refuses with ISAL_INVALID_OPERATION unless state == ZSTATE_NEW_HDR and for unknown types / NULL custom table, on paths without any store, and stream->hufftables is assigned only behind that test; both builders call gen_huff_code_lens with MAX_DEFLATE_CODE_LEN first and with MAX_SAFE_LIT_CODE_LEN / MAX_SAFE_DIST_CODE_LEN exactly on the path guarded by are_hufftables_useable; 13 + (13+5) + (12+13) <= MAX_BITBUF_BIT_WRITE <= 56; the worst-case dynamic header fits ISAL_DEF_MAX_HDR_SIZE. NOT decided: that the builder yields complete prefix codes for every histogram and that the stored header parses back to them.',
+    note='Trusts clang IR + sroa, tools/llir.py, clang constant evaluation.')
+
 NOT_APPLICABLE = {
     'C07': 'quantifies over call histories and buffer schedules; resumption correctness depends on run-time counts carried in state, no structural clause beyond the state-enum mirror already checked under C01',
     'C09': 'algebraic property of run-time matrices (invertibility, products over GF(2^8)); nothing in the shape of the code decides it, and loop summarisation over symbolic (m,k) is out of reach of the analyses used',
